@@ -333,9 +333,9 @@ func targetsParam(t *T, name string) bool {
 // ---- obligation helpers -----------------------------------------------------------------------
 
 type psRule struct {
-	p     *Prog
-	r     *Result
-	rule  string
+	p       *Prog
+	r       *Result
+	rule    string
 	fn      *ssa.Function
 	paths   []*Path
 	carried map[int]carriedInfo
